@@ -202,6 +202,18 @@ def run_annotate(ctx, path, raw, label):
         idt = id_dtypes[si % len(id_dtypes)]      # pixel tables store ids as int64; frames built by users may not
         pdf = pd.DataFrame({"bin1_id": np.array([p[1] for p in px], dtype=idt), "bin2_id": np.array([p[2] for p in px], dtype=idt),
                             "count": np.array([p[3] for p in px], dtype=np.int64)}, index=np.array([p[0] for p in px], dtype=np.int64))
+        # the frame's row labels are the caller's: integer labels (the stored pixel ids, above), or any RangeIndex —
+        # default, offset, strided, reversed (what .iloc[a:b], .iloc[::2], .iloc[::-1] of a default-indexed frame carry)
+        ikind = ["ids", "range-default", "range-offset", "range-step2", "range-reversed", "ids"][si % 6]
+        if ikind == "range-default":
+            pdf.index = pd.RangeIndex(len(px))
+        elif ikind == "range-offset":
+            pdf.index = pd.RangeIndex(5, 5 + len(px))
+        elif ikind == "range-step2":
+            pdf.index = pd.RangeIndex(0, 2 * len(px), 2)
+        elif ikind == "range-reversed":
+            pdf.index = pd.RangeIndex(len(px) - 1, -1, -1)
+        px = [(int(lbl),) + tuple(p[1:]) for lbl, p in zip(pdf.index.tolist(), px)]     # expected labels = the frame's own
         need = [p[1] for p in px] + [p[2] for p in px]
         views = [("frame", 0, nb, allbins), ("selector", 0, nb, clr.bins()), ("selector-cols", 0, nb, clr.bins()[["chrom", "start", "end"]])]
         for a in range(nb + 1):
